@@ -17,13 +17,11 @@ def loop_ordinal(I, st, node):
     fi = st.frame.func
     if fi is None:
         raise Unsupported("loop outside function")
-    n = 0
-    for x in ast.walk(fi.node):
-        if isinstance(x, (ast.For, ast.While, ast.AsyncFor)):
-            if x is node:
-                return n
-            n += 1
-    # nested function (closure) loops: search by position
+    loops_ = [x for x in ast.walk(fi.node) if isinstance(x, (ast.For, ast.While, ast.AsyncFor))]
+    loops_.sort(key=lambda x: (x.lineno, x.col_offset))     # ordinal = source order
+    for n, x in enumerate(loops_):
+        if x is node:
+            return n
     raise Unsupported("loop not found in %s" % fi.qualname)
 
 
@@ -208,6 +206,8 @@ def exec_for(I, st, node):
         from . import generators
         return generators.exec_for_filter(I, st, node, payload)
     k, ls = loop_spec(I, st, node)
+    if ls.unroll:
+        return exec_for_unrolled(I, st, node, kind, payload, k, ls)
     entry_heap = dict(st.heap)
     entry_env = dict(spec_env(I, st, {}))
     names = assigned_names(node.body) | assigned_names([ast.Expr(node.target)]) if False else \
@@ -314,3 +314,76 @@ def exec_for(I, st, node):
             I.exec_block(st, node.orelse)
             return
     raise Unsupported("for over %s" % kind)
+
+
+def exec_for_unrolled(I, st, node, kind, payload, k, ls):
+    """complete unrolling: at most ls.unroll iterations, then the unwinding assertion `nothing is left` is an obligation
+    (so the unrolling is a proof for every input that satisfies the function's precondition, not a bounded check)"""
+    fi = st.frame.func
+    N = ls.unroll
+    if kind in ("dict", "set", "setview"):
+        if kind == "dict":
+            vkind, d = payload
+            kd = I.kd_of(d)
+            D = I.dom_of(st, d)
+            kt = kd.K
+        elif kind == "set":
+            d = payload
+            kd = I.kd_of(d)
+            D = I.dom_of(st, d)
+            kt = kd.K
+            vkind = "keys"
+        else:
+            lst, D = payload
+            kt = strip_opt(I.kd_of(lst).V)
+            vkind = "keys"
+            d = None
+        ks = sort_of(kt)
+        empty = z3.K(ks, FALSE)
+        remaining = D
+        for j in range(N):
+            if not st.decide(remaining != empty, "unrolled loop: more elements"):
+                I.exec_block(st, node.orelse)
+                return
+            kx = st.fresh(ks, "k")
+            st.assume(z3.Select(remaining, kx))
+            keyv = Val(kt, kx)
+            st.assume_type_inv(keyv)
+            if vkind == "keys":
+                tv = keyv
+            else:
+                cur = I.elem_val(st, kd, z3.Select(I.vals_of(st, d), kx))
+                tv = cur if vkind == "values" else Val(("Tuple", (kt, kd.V)), (keyv, cur))
+            I.assign(st, node.target, tv)
+            remaining = z3.Store(remaining, kx, False)
+            try:
+                I.exec_block(st, node.body)
+            except ContinueExc:
+                continue
+            except BreakExc:
+                return
+        st.oblige("%s.loop[%d].unwind[%d]" % (I.short(fi), k, N), remaining == empty,
+                  meta={"kind": "loop_unwind", "clause": "the loop runs at most %d times" % N})
+        I.exec_block(st, node.orelse)
+        return
+    if kind == "list":
+        lst = payload
+        kd = I.kd_of(lst)
+        for j in range(N):
+            ln = I.list_len(st, lst)
+            if not st.decide(j < ln, "unrolled loop: more elements"):
+                I.exec_block(st, node.orelse)
+                return
+            ev = I.elem_val(st, kd, z3.Select(I.list_items(st, lst), j))
+            I.assign(st, node.target, ev)
+            try:
+                I.exec_block(st, node.body)
+            except ContinueExc:
+                continue
+            except BreakExc:
+                return
+        st.oblige("%s.loop[%d].unwind[%d]" % (I.short(fi), k, N), I.list_len(st, lst) <= N,
+                  meta={"kind": "loop_unwind", "clause": "the loop runs at most %d times" % N})
+        I.exec_block(st, node.orelse)
+        return
+    raise Unsupported("unrolling of a %s loop" % kind)
